@@ -76,10 +76,42 @@ def run_case(case):
     bump('class', cls)
     ref = {False: ref_partition(base, False), True: ref_partition(base, True)}
     via = 'parser' if (keys == list(range(1, n + 1)) and n and rng.random() < 0.5) else 'api'
+    alias = None
+    if via == 'api' and n >= 2 and rng.random() < 0.1:
+        # the same Conditional OBJECT listed under two keys (rules drawn from a pool with replacement)
+        i_, j_ = rng.sample(range(n), 2)
+        conds = list(conds)
+        conds[j_] = conds[i_]
+        alias = (i_, j_)
+        bdesc = base_desc(sig, conds)
+        bdesc['keys'] = keys
+        bdesc['same_object_at_positions'] = [i_, j_]
+        base = rm.Base(sig, conds)
+        ref = {False: ref_partition(base, False), True: ref_partition(base, True)}
+        bump('bases_with_one_object_under_two_keys')
     bb = impl.mk_bb(sig, conds, keys=keys, via=via)
     klist = list(bb.conditionals.keys())
-    pos_of_obj = {id(c): i for i, c in enumerate(bb.conditionals.values())}
+    if alias:
+        bb.conditionals[klist[alias[1]]] = bb.conditionals[klist[alias[0]]]
     pos_of_key = {k: i for i, k in enumerate(klist)}
+
+    def obj_positions(bb_, layers):
+        """layers of objects -> layers of positions; an object listed under several keys stands for its
+        positions in listing order"""
+        groups = {}
+        for i, c in enumerate(bb_.conditionals.values()):
+            groups.setdefault(id(c), []).append(i)
+        used = {}
+        out = []
+        for l in layers:
+            ol = []
+            for c in l:
+                g = groups.get(id(c), [])
+                u = used.get(id(c), 0)
+                ol.append(g[u] if u < len(g) else -1)
+                used[id(c)] = u + 1
+            out.append(ol)
+        return out
     real = {}
     debug = rng.random() < 0.05         # verdicts must not depend on the log level
     if debug:
@@ -95,7 +127,7 @@ def run_case(case):
             continue
         real[weakly] = (po, so)
         res['evals'] += 2
-        io = False if po is False else [[pos_of_obj[id(c)] for c in l] for l in po]
+        io = False if po is False else obj_positions(bb, po)
         ik = False if pk is False else [[pos_of_key[k] for k in l] for l in pk]
         r = ref[weakly]
         if (io is False) != (r is False):
@@ -189,6 +221,95 @@ def run_case(case):
                 viol('diagnostics:%s:unexpected-flag:%s' % (tag, k), impl=got, definition=exp)
         if uses_facts and exp.get('combination_infinity_increase'):
             bump('diagnostics_infinity_increase_true')
+
+    # ---------------------------------------------------------------- the same base OBJECT edited in place
+    # (a rule replaced under its key / a rule added / a rule deleted): verdicts, partitions, flags and refusal
+    # are a function of the base's content, not of what was computed for the object before
+    if n >= 2 and not alias and rng.random() < 0.3:
+        for _step in range(rng.randint(1, 3)):
+            kl = list(bb.conditionals.keys())
+            cur = [(fml.from_pysmt(c.consequence), fml.from_pysmt(c.antecedence)) for c in bb.conditionals.values()]
+            op = rng.choice(['replace', 'replace', 'add', 'delete']) if len(kl) >= 2 else 'add'
+            newc = gen.rand_base(rng, nat=len(sig), ncond=1, depth=rng.choice([0, 1, 2]), p_const=0.03)[1][0]
+            m_ = dict(zip(gen.NAMES, sig))
+            newc = (fml.rename(newc[0], m_), fml.rename(newc[1], m_))
+            if rng.random() < 0.4:
+                Bx, Ax = rng.choice(cur)
+                newc = (fml.Not(Bx), Ax)             # contradicts an existing rule: often flips the verdict
+            if op == 'replace':
+                j = rng.randrange(len(kl))
+                nc = impl.mk_cond(*newc)
+                nc.index = kl[j]
+                bb.conditionals[kl[j]] = nc
+                cur[j] = newc
+            elif op == 'add':
+                k_new = max(kl) + rng.randint(1, 3)
+                nc = impl.mk_cond(*newc)
+                nc.index = k_new
+                bb.conditionals[k_new] = nc
+                cur.append(newc)
+            else:
+                j = rng.randrange(len(kl))
+                del bb.conditionals[kl[j]]
+                del cur[j]
+            bump('in_place_edits', op)
+            base2 = rm.Base(sig, cur)
+            ref2 = {False: ref_partition(base2, False), True: ref_partition(base2, True)}
+            kl2 = list(bb.conditionals.keys())
+            pk2 = {k: i for i, k in enumerate(kl2)}
+            d2 = {'before': bdesc, 'after': base_desc(sig, cur), 'edit': op}
+            for weakly in (False, True):
+                mode = 'extended' if weakly else 'strict'
+                try:
+                    po, so = consistency(bb, 'z3', weakly)
+                    pk, sk = consistency_indices(bb, 'z3', weakly)
+                except Exception as e:
+                    viol('consistency:%s:exception-after-in-place-edit:%s' % (mode, type(e).__name__), error=str(e)[:200], **d2)
+                    continue
+                res['evals'] += 2
+                try:
+                    io = False if po is False else obj_positions(bb, po)
+                    ik = False if pk is False else [[pk2[k] for k in l] for l in pk]
+                except KeyError as e:
+                    viol('consistency:%s:partition-after-in-place-edit-names-unknown-key' % mode, error=str(e)[:100], **d2)
+                    continue
+                r = ref2[weakly]
+                if (io is False) != (r is False):
+                    viol('consistency:%s:verdict-after-in-place-edit(impl=%s,def=%s)' % (mode, io is not False, r is not False),
+                         impl=io, definition=r, **d2)
+                elif io is not False and [sorted(l) for l in io] != [sorted(l) for l in r]:
+                    viol('consistency:%s:partition-differs-after-in-place-edit' % mode, impl=io, definition=r, **d2)
+                if io != ik:
+                    viol('consistency_indices:%s:differs-from-object-variant-after-in-place-edit' % mode, objects=io, keys=ik, **d2)
+            try:
+                dd = consistency_diagnostics(bb, extended=True, uses_facts=False, on_inconsistent='silent')
+                res['evals'] += 1
+                bump('diagnostics_checked')
+                for k, v in (('belief_base_consistent', ref2[False] is not False),
+                             ('belief_base_weakly_consistent', ref2[True] is not False)):
+                    if dd.get(k) is not v:
+                        viol('diagnostics:after-in-place-edit:flag:%s(impl=%s,def=%s)' % (k, dd.get(k), v), **d2)
+            except Exception as e:
+                viol('diagnostics:after-in-place-edit:exception:%s' % type(e).__name__, error=str(e)[:200], **d2)
+            for weakly in (False, True):
+                if ref2[weakly] is not False and cur:
+                    continue
+                mode = 'extended' if weakly else 'strict'
+                q = gen.gen_queries(rng, sig, cur or conds, 1)
+                for (system, p) in rng.sample(impl.CONFIGS, 2):
+                    if system == 'c-inference' and weakly:
+                        continue
+                    res['evals'] += 1
+                    bump('refusals_checked')
+                    bump('refusals_checked_after_in_place_edit')
+                    try:
+                        df = impl.ask(bb, system, p, impl.mk_queries(q), weakly=weakly)
+                        viol('refusal:%s:%s:answered-inconsistent-base-after-in-place-edit' % (impl.cfg_name(system, p), mode),
+                             query=fml.cond_text(*q[0]), answer=impl.results(df), **d2)
+                    except Exception as e:
+                        bump('refusal_exception_type', type(e).__name__)
+            if not cur:
+                break
 
     # ---------------------------------------------------------------- refusal
     for weakly in (False, True):
